@@ -30,7 +30,7 @@ import (
 func init() {
 	core.Register(&core.Property{
 		ID:   "C02",
-		Rule: "schema-driven resources of every R4 type (enumerated from ContainedResource); for each, every distinct element-name path of its jsonformat JSON tree and all prefixes is evaluated un-indexed and with index vectors (all-first, all-last, seeded random); results compared with the harness' own proto/JSON walk: count, order, node identity (proto.Equal under contained), primitive values vs JSON (strings exactly, numbers via big.Rat, temporal texts as instant+precision+offset); plus mismatching root types (=> empty), valid-but-absent names (=> empty) and non-existent names (=> ErrInvalidField). distinct_nontrivial = distinct (resource type, element path) with a non-empty expected result that was compared",
+		Rule: "schema-driven resources of every R4 type (enumerated from ContainedResource); for each, every distinct element-name path of its jsonformat JSON tree and all prefixes is evaluated un-indexed and with index vectors (all-first, all-last, seeded random); results compared with the harness' own proto/JSON walk: count, order, node identity (proto.Equal under contained), primitive values vs JSON (strings exactly, numbers via big.Rat, temporal texts as instant+precision+offset); plus mismatching root types (=> empty), valid-but-absent names (=> empty) and non-existent names (=> ErrInvalidField). special-cased names tried on every other type, every resource type name as wrong root, the value step of Boolean / number primitives, a third of the paths compiled with Permissive first; distinct_nontrivial = distinct (resource type, element path) with a non-empty expected result that was compared",
 		Assumptions: []string{
 			"google/fhir jsonformat output defines the resource's FHIR JSON tree; proto descriptor annotations define the schema",
 			"elements under `contained` are unpacked into fresh messages by design: identity replaced by proto.Equal there",
